@@ -248,7 +248,7 @@ func (a *Affiliation) computeTriggersForTypes(lhsType types.Type, rhsType types.
 
 	// Don't process if the affiliation is already analyzed in upstream packages' upstreamCache or
 	// the current package's upstreamCache.
-	key := computeAfflitiationCacheKey(lhsObj, rhsObj)
+	key := computeAfflitiationCacheKey(lhsType, lhsObj, rhsObj)
 	if upstreamCache.Value(key) {
 		return nil
 	}
@@ -297,8 +297,14 @@ func getFullyQualifiedName(t types.Type) string {
 	return s
 }
 
-func computeAfflitiationCacheKey(interfaceObj *types.Interface, concreteObj *types.Named) Pair {
+func computeAfflitiationCacheKey(declaredType types.Type, interfaceObj *types.Interface, concreteObj *types.Named) Pair {
 	interfaceObjFQ := getFullyQualifiedName(interfaceObj)
+	if named, ok := types.Unalias(declaredType).(*types.Named); ok {
+		// A named interface is identified by its own name. The name derived from its first method
+		// is the name of the interface that _declares_ that method, which is a different interface
+		// if the method comes from an embedded one (e.g., `type J interface { I; Zed() }`).
+		interfaceObjFQ = getFullyQualifiedName(named)
+	}
 	concreteObjFQ := getFullyQualifiedName(concreteObj)
 	return Pair{
 		ImplementedID: concreteObjFQ,
